@@ -1,4 +1,5 @@
 from vlib.core import Check, Family
+from vlib.gentie import gentie_step
 
 ARITH = ["LumpedConstituentRouting", "InstreamCoarseSediment", "InstreamParticulateNutrient",
          "StorageTrapAll", "StorageDissolvedDecay"]              # + - * / comparisons, math.Min/Max only → bit-exact
@@ -25,6 +26,9 @@ CHECK = Check(
                args=["models=" + ",".join(FINE), "prop=C12", "n=250", "finegen=conditioned"]),
         Family("K", compare=False, label="K-fine-oracle", args=["models=" + ",".join(FINE), "prop=C12", "n=150"]),
     ],
+    # tie A: the loop bodies of the arithmetic-only kernels are REGENERATED from the Go source on every run (harness/cmd/owtranslate)
+    # and proved equal to the hand-written model steps (OW/Props/GenTie.lean: gen_eq_*), so the theorems are re-attached to the source
+    pre_steps=[gentie_step],
     level="proof",
     trusted=[
         "hand-written Lean kernel models OW/Kernels/{LumpedConstituent,ConstituentDecay,InstreamCoarseSediment,"
